@@ -3,20 +3,34 @@
    decode_X returns Ok | Err | Panic site exactly as the Rust decoder behaves
    (a slice/index/assert without a preceding length check is a Panic).
    Full statement per decoder X:   forall bs site, decode_X bs <> Panic site.
-   Where the pinned code violates it: X_total_refuted (concrete witness), and
-   the positive theorem guarded by the specific decidable class Known_C10_X
-   (known_c10_X in model/Codec.v). *)
+   It holds unconditionally for every decoder reachable from peer bytes (the
+   transaction, ghost-chain, api-message and golden-ticket defects of the pinned
+   tree were repaired in /repo: 34b1724, 8fc45ed, 144e342, eeb4ec7, and the model
+   follows the repaired code).  One finding remains: Wallet::deserialize_from_disk
+   (X_total_refuted with a witness + the theorem guarded by Known_C10_wallet). *)
 From Saito Require Import Base Bytes BytesProofs Codec CodecProofs CodecMsgProofs CodecTotalProofs.
 
-(* ============ decoders that are total on the pinned code ============ *)
+(* ============ wire decoders: total ============ *)
 Theorem C10_slip_total : forall bs site, decode_slip bs <> Panic site.
 Proof. exact slip_total. Qed.
 
 Theorem C10_hop_total : forall bs site, decode_hop bs <> Panic site.
 Proof. exact hop_total. Qed.
 
+(* Transaction::deserialize_from_net (declared-length guard, fix 34b1724) *)
+Theorem C10_tx_total : forall bs site, decode_tx bs <> Panic site.
+Proof. exact tx_total. Qed.
+
+(* in particular the loop fuel of the model is never what stops a run *)
+Theorem C10_tx_fuel_ok : forall bs, decode_tx bs <> Panic 0.
+Proof. intro bs. apply tx_total. Qed.
+
+(* the input that crashed the decoder before the fix is now rejected *)
+Theorem C10_tx_former_witness_rejected : decode_tx tx_panic_witness = Err.
+Proof. exact tx_former_witness_rejected. Qed.
+
 (* Block::deserialize_from_net checks the declared extent of every transaction
-   before slicing it, so the inner transaction decoder only sees exact buffers *)
+   before slicing it *)
 Theorem C10_block_total : forall bs site, decode_block bs <> Panic site.
 Proof. exact block_total. Qed.
 
@@ -35,89 +49,66 @@ Proof. exact hs_response_total. Qed.
 Theorem C10_bc_request_total : forall bs site, decode_bc_request bs <> Panic site.
 Proof. exact bc_request_total. Qed.
 
+(* GhostChainSync::deserialize_checked (fix 8fc45ed), the entry point used by Message *)
+Theorem C10_ghost_total : forall bs site, decode_ghost_checked bs <> Panic site.
+Proof. exact ghost_checked_total. Qed.
+
+Theorem C10_ghost_former_witnesses_rejected :
+  decode_ghost_checked [1; 2; 3] = Err
+  /\ decode_ghost_checked (repeat 0 32 ++ [255; 255; 255; 255]) = Err.
+Proof. exact ghost_former_witnesses_rejected. Qed.
+
+(* ApiMessage::deserialize (a Result since fix 144e342) *)
+Theorem C10_api_total : forall bs site, decode_api bs <> Panic site.
+Proof. exact api_total. Qed.
+
+Theorem C10_api_guarded_total : forall bs site, decode_api_guarded bs <> Panic site.
+Proof. exact api_guarded_total. Qed.
+
+(* Message::deserialize: everything a peer can send, every tag and payload *)
+Theorem C10_message_total : forall bs site, decode_message bs <> Panic site.
+Proof. exact message_total. Qed.
+
+Theorem C10_message_former_witnesses_rejected :
+  decode_message (4 :: tx_panic_witness) = Err /\ decode_message [10; 1; 2; 3] = Err.
+Proof. exact message_former_witnesses_rejected. Qed.
+
 (* a strict prefix of a valid block encoding is rejected with Err (torn write) *)
 Theorem C10_block_prefix_rejected : forall bt b k,
   wf_block b = true -> (k < length (encode_block bt b))%nat ->
   decode_block (firstn k (encode_block bt b)) = Err.
 Proof. exact block_prefix_rejected. Qed.
 
-(* ============ Transaction ============ *)
-(* Known class: the 93-byte header is present and declares (inputs, outputs,
-   message length, hops) more bytes than the buffer holds. *)
-Definition Known_C10_tx (bs : list N) : Prop := known_c10_tx bs = true.
-
-(* full statement  [forall bs site, decode_tx bs <> Panic site]  is false: *)
-Theorem C10_tx_total_refuted : exists bs site, decode_tx bs = Panic site.
-Proof. exact tx_total_refuted. Qed.
-
-Theorem C10_tx_known_witness : exists bs site, Known_C10_tx bs /\ decode_tx bs = Panic site.
-Proof.
-  exists tx_panic_witness, 309. split; [exact tx_panic_witness_known|vm_compute; reflexivity].
-Qed.
-
-Theorem C10_tx_total : forall bs site, ~ Known_C10_tx bs -> decode_tx bs <> Panic site.
-Proof.
-  intros bs site K. apply tx_total_guarded. unfold Known_C10_tx in K.
-  destruct (known_c10_tx bs); [contradiction|reflexivity].
-Qed.
-
-(* the loop fuel of the model is never what stops a run *)
-Theorem C10_tx_fuel_ok : forall bs, decode_tx bs <> Panic 0.
-Proof. exact tx_fuel_ok. Qed.
-
-(* ============ GhostChainSync ============ *)
-(* Known class: shorter than 36 + 82 * count (count = u32 at offset 32), in
-   particular every buffer shorter than 36 bytes *)
-Definition Known_C10_ghost (bs : list N) : Prop := known_c10_ghost bs = true.
-
-Theorem C10_ghost_total_refuted : exists bs site, decode_ghost bs = Panic site.
-Proof. exact ghost_total_refuted. Qed.
-
-Theorem C10_ghost_total_refuted_count :
-  exists site, decode_ghost (repeat 0 32 ++ [255; 255; 255; 255]) = Panic site.
-Proof. exact ghost_total_refuted_count. Qed.
-
-Theorem C10_ghost_total : forall bs site, ~ Known_C10_ghost bs -> decode_ghost bs <> Panic site.
-Proof.
-  intros bs site K. apply ghost_total_guarded. unfold Known_C10_ghost in K.
-  destruct (known_c10_ghost bs); [contradiction|reflexivity].
-Qed.
-
-(* ============ ApiMessage ============ *)
-Definition Known_C10_api (bs : list N) : Prop := known_c10_api bs = true.   (* fewer than 4 bytes *)
-
-Theorem C10_api_total_refuted : exists bs site, decode_api bs = Panic site.
-Proof. exact api_total_refuted. Qed.
-
-Theorem C10_api_total : forall bs site, ~ Known_C10_api bs -> decode_api bs <> Panic site.
-Proof.
-  intros bs site K. apply api_total_guarded. unfold Known_C10_api in K.
-  destruct (known_c10_api bs); [contradiction|reflexivity].
-Qed.
-
-(* Message::deserialize guards its three ApiMessage call sites with len >= 4 *)
-Theorem C10_api_guarded_total : forall bs site, decode_api_guarded bs <> Panic site.
-Proof. exact api_guarded_total. Qed.
-
 (* ============ GoldenTicket ============ *)
-Definition Known_C10_gt (bs : list N) : Prop := known_c10_gt bs = true.     (* length <> 97 *)
+(* GoldenTicket::deserialize_from_net keeps assert_eq!(len, 97) as an internal
+   invariant.  Since fix eeb4ec7 no byte string from a peer or from disk reaches
+   it with another length: the payload of every decoded GoldenTicket-type
+   transaction has 97 bytes. *)
+Theorem C10_gt_precondition : forall bs site, Nlen bs = 97 -> decode_gt bs <> Panic site.
+Proof. exact gt_precondition. Qed.
 
-Theorem C10_gt_total_refuted : exists bs site, decode_gt bs = Panic site.
-Proof. exact gt_total_refuted. Qed.
-
-Theorem C10_gt_total : forall bs site, ~ Known_C10_gt bs -> decode_gt bs <> Panic site.
-Proof.
-  intros bs site K. apply gt_total_guarded. unfold Known_C10_gt in K.
-  destruct (known_c10_gt bs); [contradiction|reflexivity].
-Qed.
-
-(* the class is exact *)
-Theorem C10_gt_panic_iff : forall bs, (exists site, decode_gt bs = Panic site) <-> Known_C10_gt bs.
+Theorem C10_gt_panic_iff : forall bs, (exists site, decode_gt bs = Panic site) <-> Nlen bs <> 97.
 Proof. exact gt_panic_iff. Qed.
 
-(* ============ Wallet::deserialize_from_disk ============ *)
+Theorem C10_tx_golden_ticket_payload : forall bs t,
+  decode_tx bs = Ok t -> t_type t = TT_GOLDEN_TICKET -> Nlen (t_data t) = 97.
+Proof. exact tx_golden_ticket_payload. Qed.
+
+(* transaction decoder followed by the golden ticket decoder on its payload, as
+   the mempool and block validation do: total on every byte string *)
+Theorem C10_tx_and_ticket_total : forall bs site, decode_tx_and_ticket bs <> Panic site.
+Proof. exact tx_and_ticket_total. Qed.
+
+(* the same for every transaction of a decoded block *)
+Theorem C10_block_golden_tickets_ok : forall bs b t site,
+  decode_block bs = Ok b -> In t (b_txs b) -> t_type t = TT_GOLDEN_TICKET ->
+  decode_gt (t_data t) <> Panic site.
+Proof. exact block_golden_tickets_ok. Qed.
+
+(* ============ Wallet::deserialize_from_disk: the remaining finding ============ *)
 Definition Known_C10_wallet (bs : list N) : Prop := known_c10_wallet bs = true.   (* fewer than 65 bytes *)
 
+(* full statement  [forall bs site, decode_wallet bs <> Panic site]  is false: *)
 Theorem C10_wallet_total_refuted : exists bs site, decode_wallet bs = Panic site.
 Proof. exact wallet_total_refuted. Qed.
 
@@ -127,26 +118,10 @@ Proof.
   destruct (known_c10_wallet bs); [contradiction|reflexivity].
 Qed.
 
+(* the class is exact *)
 Theorem C10_wallet_panic_iff : forall bs,
   (exists site, decode_wallet bs = Panic site) <-> Known_C10_wallet bs.
 Proof. exact wallet_panic_iff. Qed.
-
-(* ============ Message::deserialize (everything a peer can send) ============ *)
-(* Known class: tag 4 with a payload in Known_C10_tx, or tag 10 with a payload
-   in Known_C10_ghost; every other tag and payload is handled without panic *)
-Definition Known_C10_message (bs : list N) : Prop := known_c10_message bs = true.
-
-Theorem C10_message_total_refuted : exists bs site, decode_message bs = Panic site.
-Proof. exact message_total_refuted. Qed.
-
-Theorem C10_message_total_refuted_tx : exists site, decode_message (4 :: tx_panic_witness) = Panic site.
-Proof. exact message_total_refuted_tx. Qed.
-
-Theorem C10_message_total : forall bs site, ~ Known_C10_message bs -> decode_message bs <> Panic site.
-Proof.
-  intros bs site K. apply message_total_guarded. unfold Known_C10_message in K.
-  destruct (known_c10_message bs); [contradiction|reflexivity].
-Qed.
 
 (* ============ size of what is built vs. length of the input ============ *)
 (* No decoder reserves capacity from a wire count (there is no with_capacity /
@@ -162,25 +137,26 @@ Theorem C10_block_alloc : forall bs b,
   bytes_ok bs = true -> decode_block bs = Ok b -> size_block BT_FULL b <= Nlen bs.
 Proof. exact block_decoded_size. Qed.
 
-Theorem C10_ghost_alloc : forall bs g, decode_ghost bs = Ok g ->
+Theorem C10_ghost_alloc : forall bs g, decode_ghost_checked bs = Ok g ->
   36 + 82 * Nlen (g_prehashes g) <= Nlen bs
   /\ Nlen (g_prev_hashes g) = Nlen (g_prehashes g) /\ Nlen (g_block_ids g) = Nlen (g_prehashes g)
   /\ Nlen (g_block_ts g) = Nlen (g_prehashes g) /\ Nlen (g_txs g) = Nlen (g_prehashes g)
   /\ Nlen (g_gts g) = Nlen (g_prehashes g).
-Proof. exact ghost_decoded_size. Qed.
+Proof. intros bs g H. apply ghost_decoded_size. now apply ghost_checked_ok_inner. Qed.
 
-(* non-vacuity: inputs outside the classes on which the decoders do run their loops *)
-Example C10_example_outside_known :
+(* non-vacuity: inputs on which the decoders do run their loops / reach the new guards *)
+Example C10_example :
   let bs := [0; 0; 0; 1; 0; 0; 0; 0; 0; 0; 0; 2; 0; 0; 0; 0] ++ repeat 0 77 ++ repeat 1 58 ++ [99; 5; 6] in
-  known_c10_tx bs = false /\ decode_tx bs = Err
-  /\ known_c10_message (4 :: bs) = false /\ decode_message (4 :: bs) = Err
-  /\ known_c10_message (10 :: repeat 0 36) = false
-  /\ class_of (decode_message (10 :: repeat 0 36)) = 0.
+  decode_tx bs = Err /\ decode_message (4 :: bs) = Err
+  /\ class_of (decode_message (10 :: repeat 0 36)) = 0
+  /\ class_of (decode_tx (repeat 0 92 ++ [2])) = 1                       (* golden ticket type, empty payload *)
+  /\ class_of (decode_tx_and_ticket ([0;0;0;0; 0;0;0;0; 0;0;0;97; 0;0;0;0] ++ repeat 0 76 ++ [2] ++ repeat 7 97)) = 0.
 Proof. vm_compute. repeat split; reflexivity. Qed.
 
+Print Assumptions C10_tx_total.
 Print Assumptions C10_block_total.
 Print Assumptions C10_block_prefix_rejected.
-Print Assumptions C10_tx_total.
 Print Assumptions C10_ghost_total.
 Print Assumptions C10_message_total.
-Print Assumptions C10_hs_response_total.
+Print Assumptions C10_tx_and_ticket_total.
+Print Assumptions C10_block_golden_tickets_ok.
